@@ -12,7 +12,7 @@ META = {
             "memory-less reference, and - the property executed literally - every line is also run on a freshly compiled copy given the same "
             "metric values (two-copy product on the real code) and both outcomes must agree.",
     "note": "Programs/histories are TLC-generated samples (histories repeat lines, the same timestamp text under several layouts, failing "
-            "conversions, stop, runtime errors); metric values are copied into the fresh VM through the public datum setters.",
+            "conversions, stop, runtime errors; the leak profile puts a match site behind a short-circuit and uses its capture); metric values are copied into the fresh VM through the public datum setters.",
     "technique": "TLA+ reference semantics + TLC-generated histories replayed into real VMs; two-copy product run on the real code (direction A)",
     "design_ref": "DESIGN.md 5/C05",
 }
